@@ -43,10 +43,10 @@ _flags = {'record': False}
 
 def cases(tier, seed):
     cs = []
-    n = 300 if tier == 'quick' else 5000
+    n = 300 if tier == 'quick' else 12000
     for i in range(n):
         cs.append({'kind': ['qtz-layer', 'qtz-channel', 'combiner'][i % 3], 'seed': seed * 7919 + i})
-    m = 90 if tier == 'quick' else 1500
+    m = 90 if tier == 'quick' else 4500
     for i in range(m):
         cs.append({'kind': ['mps-layer', 'mps-channel', 'supernet'][i % 3],
                    'seed': seed * 104729 + i})
